@@ -601,7 +601,9 @@ def cpython_verdict(seen):
         return ("syntax", e.lineno or 0, e.msg)
       # found by the compiler proper (symtable/codegen): pytype gets str(err) back from compile_bytecode and
       # parses "(file, line N)"; without a line the regex fails and CompileError.line = 1
-      return ("syntax", e.lineno if e.lineno is not None else 1, e.msg)
+      # (CPython 3.12 can blame line -1, e.g. `return` in an except* block inside `async with`: `\d+` does not
+      # match "-1" either, so that is line 1 as well)
+      return ("syntax", e.lineno if e.lineno is not None and e.lineno >= 0 else 1, e.msg)
     except (ValueError, RecursionError, MemoryError, OverflowError) as e:
       return ("other", type(e).__name__)
   return ("compiles",)
@@ -1031,7 +1033,7 @@ def run(res):
       "typeshed is absent in this environment: inputs that make pytype load a typeshed module are not explorable",
       "expected line of the single python-compiler-error: if ast.parse rejects the text (directors.parse_src sees the same "
       "SyntaxError first) it is `e.lineno or 0`; if only compile() rejects it (symtable/codegen, CompileError branch) it is the "
-      "N of '(file, line N)' in str(err), i.e. e.lineno, or 1 when CPython gives no line; line 0 is accepted only in the first case "
+      "N of '(file, line N)' in str(err), i.e. e.lineno, or 1 when CPython gives no line or a negative one (the regex wants \\d+); line 0 is accepted only in the first case "
       "with lineno None (null bytes)",
       "byte_* handler presence/arity is read from the live classes (inspect); handler bodies are exercised by search only",
       "generator, mutator, oracle and differ in harness/props/c15*.py",
